@@ -1,54 +1,211 @@
 // src/algorithms/replace.rs
 verus! {
 
+/// what the inner hook records for one forwarded event / for a forwarded script
+pub open spec fn sent_ev<D: DiffHook>(e: Ev) -> Seq<Ev> {
+    match e { Ev::Replace(o, ol, n, nl) => replace_evs::<D>(o, ol, n, nl), _ => seq![e] }
+}
+pub open spec fn sent<D: DiffHook>(em: Seq<Ev>) -> Seq<Ev>
+  decreases em.len()
+{
+    if em.len() == 0 { Seq::<Ev>::empty() } else { sent::<D>(em.drop_last()) + sent_ev::<D>(em.last()) }
+}
+pub proof fn lemma_sent_push<D: DiffHook>(em: Seq<Ev>, e: Ev)
+  ensures sent::<D>(em.push(e)) == sent::<D>(em) + sent_ev::<D>(e)
+{
+    assert(em.push(e).drop_last() =~= em);
+}
+
 //@@ item src/algorithms/replace.rs :: ^pub struct Replace
 pub struct Replace<D: DiffHook> {
     d: D,
     del: Option<(usize, usize, usize)>,
     ins: Option<(usize, usize, usize)>,
     eq: Option<(usize, usize, usize)>,
+    /*@*/ hist: Ghost<Seq<Ev>>,   // every successful call received (ghost)
+    /*@*/ rst0: Ghost<St>,        // checker state the first call is expected from; set by the creator (ghost)
+    /*@*/ em: Ghost<Seq<Ev>>,     // what has been forwarded to the inner hook (ghost)
+    /*@*/ it0: Ghost<Seq<Ev>>,    // the inner hook's history when this adapter was created (ghost)
 }
 //@@ end
 
 //@@ item src/algorithms/replace.rs :: ^impl<D: DiffHook> Replace<D> rw=R0
 impl<D: DiffHook> Replace<D> {
+    /*@*/ pub closed spec fn inner(&self) -> D { self.d }
+    /*@*/ pub closed spec fn hist_(&self) -> Seq<Ev> { self.hist@ }
+    /*@*/ pub closed spec fn em_(&self) -> Seq<Ev> { self.em@ }
+    /*@*/ pub closed spec fn it0_(&self) -> Seq<Ev> { self.it0@ }
+    /*@*/ pub closed spec fn rst0_(&self) -> St { self.rst0@ }
+    /*@*/ pub closed spec fn p_del(&self) -> Option<(usize, usize, usize)> { self.del }
+    /*@*/ pub closed spec fn p_ins(&self) -> Option<(usize, usize, usize)> { self.ins }
+    /*@*/ pub closed spec fn p_eq(&self) -> Option<(usize, usize, usize)> { self.eq }
+    /*@*/ /// the relation the incoming script is checked against
+    /*@*/ pub open spec fn rr(&self) -> Rel { if self.inner().relies() { self.inner().rely_rel() } else { rel_true() } }
+    /*@*/ /// weak-checker state after everything received
+    /*@*/ pub open spec fn rst(&self) -> St { run_rel(self.rr(), self.rst0_(), self.hist_()) }
+    /*@*/ pub open spec fn x0(&self) -> Xs { xcanon(self.rst0_().oc, self.rst0_().nc, self.rst0_().oe, self.rst0_().ne) }
+    /*@*/ /// exact-checker state after everything forwarded
+    /*@*/ pub open spec fn xs(&self) -> Xs { xrun(self.rr(), self.x0(), self.em_()) }
+    /*@*/ pub open spec fn el(&self) -> int { match self.p_eq() { Some((o, n, l)) => l as int, None => 0 } }
+    /*@*/ pub open spec fn dl(&self) -> int { match self.p_del() { Some((o, l, n)) => l as int, None => 0 } }
+    /*@*/ pub open spec fn il(&self) -> int { match self.p_ins() { Some((o, n, l)) => l as int, None => 0 } }
+    /*@*/ pub open spec fn idle(&self) -> bool { self.p_del() is None && self.p_ins() is None && self.p_eq() is None }
+    /*@*/ /// I_R: forwarded script ++ pending calls == received script; the forwarded script is exact and in normal form
+    /*@*/ pub open spec fn core(&self) -> bool {
+    /*@*/     let rst = self.rst(); let xs = self.xs(); let r0 = self.rst0_();
+    /*@*/     &&& wf(r0) && r0.ro == r0.oc && r0.rn == r0.nc && r0.oe <= usize::MAX && r0.ne <= usize::MAX
+    /*@*/     &&& rst.ok
+    /*@*/     &&& self.inner().trace() == self.it0_() + sent::<D>(self.em_()) + (if rst.fin { fin::<D>() } else { Seq::<Ev>::empty() })
+    /*@*/     &&& !self.inner().failed() && self.inner().accepts_replace()
+    /*@*/     &&& xs.ok && xs.oc == rst.oc - self.el() - self.dl() && xs.nc == rst.nc - self.el() - self.il()
+    /*@*/     &&& xs.dels == (rst.dels - r0.dels) - self.dl() && xs.inss == (rst.inss - r0.inss) - self.il() && xs.eqs == (rst.eqs - r0.eqs) - self.el()
+    /*@*/     &&& (self.p_eq() matches Some((o, n, l)) ==> self.p_del() is None && self.p_ins() is None && l > 0 && o == xs.oc && n == xs.nc && xs.last != 1
+    /*@*/             && rst.ro == rst.oc && rst.rn == rst.nc && rst.po <= rst.oc && rst.pn <= rst.nc
+    /*@*/             && (forall|i: int| 0 <= i < l ==> #[trigger] relk(self.rr(), o as int, n as int, i)))
+    /*@*/     &&& (self.p_del() matches Some((o, l, n)) ==> l > 0 && o == xs.oc && rst.rn <= n && n <= rst.pn)
+    /*@*/     &&& (self.p_ins() matches Some((o, n, l)) ==> l > 0 && n == xs.nc && rst.ro <= o && o <= rst.po)
+    /*@*/     &&& ((self.p_del() is Some || self.p_ins() is Some) ==> self.p_eq() is None && xs.last != 2 && rst.ro == xs.oc && rst.rn == xs.nc)
+    /*@*/     &&& (rst.fin ==> self.idle())
+    /*@*/     &&& (self.inner().relies() ==> self.inner().rely_st().ok && self.inner().rely_st().oc == xs.oc && self.inner().rely_st().nc == xs.nc
+    /*@*/             && self.inner().rely_st().oe >= r0.oe && self.inner().rely_st().ne >= r0.ne
+    /*@*/             && (!rst.fin ==> wf(self.inner().rely_st())))
+    /*@*/ }
+    /*@*/ pub open spec fn inv(&self) -> bool {
+    /*@*/     self.core() && (self.idle() && !self.rst().fin ==> self.hist_().len() == 0 && self.em_().len() == 0)
+    /*@*/ }
+    /*@*/ /// after creation (the creator then assigns rst0 by a ghost assignment)
+    /*@*/ pub open spec fn fresh(&self) -> bool {
+    /*@*/     self.hist_() == Seq::<Ev>::empty() && self.em_() == Seq::<Ev>::empty() && self.it0_() == self.inner().trace() && self.idle()
+    /*@*/ }
     /// Creates a new replace hook wrapping another hook.
     pub fn new(d: D) -> (res: Self)
+    /*@*/     ensures res.fresh(), res.inner() == d,
     {
         Replace {
             d,
             del: None,
             ins: None,
             eq: None,
+            /*@*/ hist: Ghost(Seq::empty()), rst0: Ghost(arbitrary()), em: Ghost(Seq::empty()), it0: Ghost(d.trace()),
         }
     }
 
     /// Extracts the inner hook.
     pub fn into_inner(self) -> (res: D)
+    /*@*/     ensures res == self.inner(),
     {
         self.d
     }
 
     fn flush_eq(&mut self) -> (res: Result<(), D::Error>)
+    /*@*/     requires old(self).core(), !old(self).rst().fin,
+    /*@*/     ensures
+    /*@*/         final(self).hist_() == old(self).hist_(), final(self).rst0_() == old(self).rst0_(), final(self).it0_() == old(self).it0_(),
+    /*@*/         hook_frame(old(self).inner(), final(self).inner(), res),
+    /*@*/         res.is_ok() ==> final(self).core() && final(self).p_eq() is None
+    /*@*/             && final(self).p_del() == old(self).p_del() && final(self).p_ins() == old(self).p_ins()
+    /*@*/             && (old(self).p_eq() is Some ==> final(self).xs().last == 1)
+    /*@*/             && (old(self).p_eq() is None ==> final(self).em_() == old(self).em_()),
     {
         if let Some((eq_old_index, eq_new_index, eq_len)) = self.eq.take() {
+            /*@*/ let ghost e = Ev::Equal(eq_old_index, eq_new_index, eq_len);
+            /*@*/ let ghost pre = *vstd::prelude::old(self);
+            /*@*/ proof {
+            /*@*/     lemma_xrun_mono(pre.rr(), pre.x0(), pre.em_());
+            /*@*/     lemma_mono(pre.rr(), pre.rst0_(), pre.hist_());
+            /*@*/     if self.d.relies() { lemma_step_exact(self.d.rely_rel(), self.d.rely_st(), e); }
+            /*@*/ }
             self.d.equal(eq_old_index, eq_new_index, eq_len)?
         }
+        /*@*/ proof {
+        /*@*/     let pre = *vstd::prelude::old(self);
+        /*@*/     if pre.p_eq() is Some {
+        /*@*/         let e = Ev::Equal(pre.p_eq().unwrap().0, pre.p_eq().unwrap().1, pre.p_eq().unwrap().2);
+        /*@*/         self.em@ = self.em@.push(e);
+        /*@*/         lemma_xrun_push(pre.rr(), pre.x0(), pre.em_(), e);
+        /*@*/         lemma_sent_push::<D>(pre.em_(), e);
+        /*@*/         assert(pre.it0_() + sent::<D>(pre.em_()) + Seq::<Ev>::empty() =~= pre.it0_() + sent::<D>(pre.em_()));
+        /*@*/         assert((pre.it0_() + sent::<D>(pre.em_())).push(e) =~= pre.it0_() + (sent::<D>(pre.em_()) + seq![e]) + Seq::<Ev>::empty());
+        /*@*/     }
+        /*@*/ }
         Ok(())
     }
 
     fn flush_del_ins(&mut self) -> (res: Result<(), D::Error>)
+    /*@*/     requires old(self).core(), !old(self).rst().fin,
+    /*@*/         // the run of changes is over: carried indices are resolved
+    /*@*/         old(self).rst().po <= old(self).rst().oc, old(self).rst().pn <= old(self).rst().nc,
+    /*@*/     ensures
+    /*@*/         final(self).hist_() == old(self).hist_(), final(self).rst0_() == old(self).rst0_(), final(self).it0_() == old(self).it0_(),
+    /*@*/         hook_frame(old(self).inner(), final(self).inner(), res),
+    /*@*/         res.is_ok() ==> final(self).core() && final(self).p_del() is None && final(self).p_ins() is None && final(self).p_eq() == old(self).p_eq()
+    /*@*/             && ((old(self).p_del() is Some || old(self).p_ins() is Some) ==> final(self).xs().last == 2)
+    /*@*/             && ((old(self).p_del() is None && old(self).p_ins() is None) ==> final(self).em_() == old(self).em_()),
     {
+        /*@*/ let ghost pre = *vstd::prelude::old(self);
+        /*@*/ proof {
+        /*@*/     lemma_xrun_mono(pre.rr(), pre.x0(), pre.em_());
+        /*@*/     lemma_mono(pre.rr(), pre.rst0_(), pre.hist_());
+        /*@*/ }
         if let Some((del_old_index, del_old_len, del_new_index)) = self.del.take() {
             if let Some((_, ins_new_index, ins_new_len)) = self.ins.take() {
+                /*@*/ let ghost e = Ev::Replace(del_old_index, del_old_len, ins_new_index, ins_new_len);
+                /*@*/ proof { if self.d.relies() { lemma_step_exact(self.d.rely_rel(), self.d.rely_st(), e); } }
                 self.d
                     .replace(del_old_index, del_old_len, ins_new_index, ins_new_len)?;
+                /*@*/ proof {
+                /*@*/     self.em@ = self.em@.push(e);
+                /*@*/     lemma_xrun_push(pre.rr(), pre.x0(), pre.em_(), e);
+                /*@*/     lemma_sent_push::<D>(pre.em_(), e);
+                /*@*/     assert(pre.it0_() + sent::<D>(pre.em_()) + Seq::<Ev>::empty() =~= pre.it0_() + sent::<D>(pre.em_()));
+                /*@*/     assert(pre.it0_() + sent::<D>(pre.em_()) + sent_ev::<D>(e) =~= pre.it0_() + (sent::<D>(pre.em_()) + sent_ev::<D>(e)) + Seq::<Ev>::empty());
+                /*@*/     assert(seq![e] =~= Seq::<Ev>::empty().push(e));
+                /*@*/ }
             } else {
+                /*@*/ let ghost e = Ev::Delete(del_old_index, del_old_len, del_new_index);
+                /*@*/ proof { if self.d.relies() { lemma_step_exact(self.d.rely_rel(), self.d.rely_st(), e); } }
                 self.d.delete(del_old_index, del_old_len, del_new_index)?;
+                /*@*/ proof {
+                /*@*/     self.em@ = self.em@.push(e);
+                /*@*/     lemma_xrun_push(pre.rr(), pre.x0(), pre.em_(), e);
+                /*@*/     lemma_sent_push::<D>(pre.em_(), e);
+                /*@*/     assert(pre.it0_() + sent::<D>(pre.em_()) + Seq::<Ev>::empty() =~= pre.it0_() + sent::<D>(pre.em_()));
+                /*@*/     assert(pre.it0_() + sent::<D>(pre.em_()) + sent_ev::<D>(e) =~= pre.it0_() + (sent::<D>(pre.em_()) + sent_ev::<D>(e)) + Seq::<Ev>::empty());
+                /*@*/     assert(seq![e] =~= Seq::<Ev>::empty().push(e));
+                /*@*/ }
             }
         } else if let Some((ins_old_index, ins_new_index, ins_new_len)) = self.ins.take() {
+            /*@*/ let ghost e = Ev::Insert(ins_old_index, ins_new_index, ins_new_len);
+            /*@*/ proof { if self.d.relies() { lemma_step_exact(self.d.rely_rel(), self.d.rely_st(), e); } }
             self.d.insert(ins_old_index, ins_new_index, ins_new_len)?;
+            /*@*/ proof {
+            /*@*/     self.em@ = self.em@.push(e);
+            /*@*/     lemma_xrun_push(pre.rr(), pre.x0(), pre.em_(), e);
+            /*@*/     lemma_sent_push::<D>(pre.em_(), e);
+            /*@*/     assert(pre.it0_() + sent::<D>(pre.em_()) + Seq::<Ev>::empty() =~= pre.it0_() + sent::<D>(pre.em_()));
+            /*@*/     assert(pre.it0_() + sent::<D>(pre.em_()) + sent_ev::<D>(e) =~= pre.it0_() + (sent::<D>(pre.em_()) + sent_ev::<D>(e)) + Seq::<Ev>::empty());
+            /*@*/     assert(seq![e] =~= Seq::<Ev>::empty().push(e));
+            /*@*/ }
         }
+        /*@*/ proof {
+        /*@*/     let rst = self.rst(); let xs = self.xs(); let r0 = self.rst0_();
+        /*@*/     assert(rst.ok);
+        /*@*/     assert(self.inner().trace() == self.it0_() + sent::<D>(self.em_()) + (if rst.fin { fin::<D>() } else { Seq::<Ev>::empty() }));
+        /*@*/     assert(!self.inner().failed() && self.inner().accepts_replace());
+        /*@*/     assert(xs.ok);
+        /*@*/     assert(xs.oc == rst.oc - self.el() - self.dl() && xs.nc == rst.nc - self.el() - self.il());
+        /*@*/     assert(xs.dels == (rst.dels - r0.dels) - self.dl() && xs.inss == (rst.inss - r0.inss) - self.il() && xs.eqs == (rst.eqs - r0.eqs) - self.el());
+        /*@*/     assert(self.p_eq() matches Some((o, n, l)) ==> self.p_del() is None && self.p_ins() is None && l > 0 && o == xs.oc && n == xs.nc && xs.last != 1
+        /*@*/             && rst.ro == rst.oc && rst.rn == rst.nc && rst.po <= rst.oc && rst.pn <= rst.nc);
+        /*@*/     assert(self.p_eq() matches Some((o, n, l)) ==> (forall|i: int| 0 <= i < l ==> #[trigger] relk(self.rr(), o as int, n as int, i)));
+        /*@*/     assert(self.p_del() matches Some((o, l, n)) ==> l > 0 && o == xs.oc && rst.rn <= n && n <= rst.pn);
+        /*@*/     assert(self.p_ins() matches Some((o, n, l)) ==> l > 0 && n == xs.nc && rst.ro <= o && o <= rst.po);
+        /*@*/     assert((self.p_del() is Some || self.p_ins() is Some) ==> self.p_eq() is None && xs.last != 2 && rst.ro == xs.oc && rst.rn == xs.nc);
+        /*@*/     assert(rst.fin ==> self.idle());
+        /*@*/     assert(self.inner().relies() ==> self.inner().rely_st().ok && self.inner().rely_st().oc == xs.oc && self.inner().rely_st().nc == xs.nc);
+        /*@*/     assert(self.inner().relies() ==> self.inner().rely_st().oe >= r0.oe && self.inner().rely_st().ne >= r0.ne);
+        /*@*/     assert(self.inner().relies() ==> (!rst.fin ==> wf(self.inner().rely_st())));
+        /*@*/ }
         Ok(())
     }
 }
@@ -57,10 +214,30 @@ impl<D: DiffHook> Replace<D> {
 //@@ item src/algorithms/replace.rs :: ^impl<D: DiffHook> DiffHook for Replace<D> rw=R0,R3
 impl<D: DiffHook> DiffHook for Replace<D> {
     type Error = D::Error;
+    /*@*/ closed spec fn trace(&self) -> Seq<Ev> { self.hist_() }
+    /*@*/ closed spec fn failed(&self) -> bool { self.inner().failed() }
+    /*@*/ closed spec fn last_err(&self) -> Option<Self::Error> { self.inner().last_err() }
+    /*@*/ closed spec fn relies(&self) -> bool { true }
+    /*@*/ closed spec fn rely_rel(&self) -> Rel { self.rr() }
+    /*@*/ /// the expected state is only acceptable (`ok`) while the adapter's invariant holds
+    /*@*/ closed spec fn rely_st(&self) -> St { St { ok: self.inv(), ..self.rst() } }
+    /*@*/ closed spec fn observes_finish() -> bool { true }
+    /*@*/ closed spec fn replace_is_atomic() -> bool { true }
+    /*@*/ /// `replace` on the Replace adapter (a pass-through that does not flush pending deletes/inserts) is outside
+    /*@*/ /// the verified envelope: no verified caller can call it
+    /*@*/ closed spec fn accepts_replace(&self) -> bool { false }
 
     fn equal(&mut self, old_index: usize, new_index: usize, len: usize) -> (res: Result<(), D::Error>)
     {
+        /*@*/ let ghost pre = *vstd::prelude::old(self);
+        /*@*/ let ghost e = Ev::Equal(old_index, new_index, len);
+        /*@*/ proof {
+        /*@*/     reveal(step_rel);
+        /*@*/     lemma_mono(pre.rr(), pre.rst0_(), pre.hist_());
+        /*@*/     lemma_xrun_mono(pre.rr(), pre.x0(), pre.em_());
+        /*@*/ }
         self.flush_del_ins()?;
+        /*@*/ let ghost mid = *self;
 
         self.eq = if let Some((eq_old_index, eq_new_index, eq_len)) = self.eq.take() {
             Some((eq_old_index, eq_new_index, eq_len + len))
@@ -68,6 +245,38 @@ impl<D: DiffHook> DiffHook for Replace<D> {
             Some((old_index, new_index, len))
         };
 
+        /*@*/ proof {
+        /*@*/     self.hist@ = self.hist@.push(e);
+        /*@*/     lemma_run_push(pre.rr(), pre.rst0_(), pre.hist_(), e);
+        /*@*/     assert(mid.rr() == pre.rr() && self.rr() == pre.rr());
+        /*@*/     if mid.p_eq() is Some {
+        /*@*/         let eo = mid.p_eq().unwrap().0; let en = mid.p_eq().unwrap().1; let elen = mid.p_eq().unwrap().2;
+        /*@*/         assert forall|i: int| 0 <= i < elen + len implies #[trigger] relk(self.rr(), eo as int, en as int, i) by {
+        /*@*/             if i >= elen { assert(relk(pre.rr(), old_index as int, new_index as int, i - elen)); }
+        /*@*/             else { assert(relk(mid.rr(), eo as int, en as int, i)); }
+        /*@*/         }
+        /*@*/     }
+        /*@*/ }
+        /*@*/
+        /*@*/ proof {
+        /*@*/     let rst = self.rst(); let xs = self.xs(); let r0 = self.rst0_();
+        /*@*/     assert(rst.ok);
+        /*@*/     assert(self.inner().trace() == self.it0_() + sent::<D>(self.em_()) + (if rst.fin { fin::<D>() } else { Seq::<Ev>::empty() }));
+        /*@*/     assert(!self.inner().failed() && self.inner().accepts_replace());
+        /*@*/     assert(xs.ok);
+        /*@*/     assert(xs.oc == rst.oc - self.el() - self.dl() && xs.nc == rst.nc - self.el() - self.il());
+        /*@*/     assert(xs.dels == (rst.dels - r0.dels) - self.dl() && xs.inss == (rst.inss - r0.inss) - self.il() && xs.eqs == (rst.eqs - r0.eqs) - self.el());
+        /*@*/     assert(self.p_eq() matches Some((o, n, l)) ==> self.p_del() is None && self.p_ins() is None && l > 0 && o == xs.oc && n == xs.nc && xs.last != 1
+        /*@*/             && rst.ro == rst.oc && rst.rn == rst.nc && rst.po <= rst.oc && rst.pn <= rst.nc);
+        /*@*/     assert(self.p_eq() matches Some((o, n, l)) ==> (forall|i: int| 0 <= i < l ==> #[trigger] relk(self.rr(), o as int, n as int, i)));
+        /*@*/     assert(self.p_del() matches Some((o, l, n)) ==> l > 0 && o == xs.oc && rst.rn <= n && n <= rst.pn);
+        /*@*/     assert(self.p_ins() matches Some((o, n, l)) ==> l > 0 && n == xs.nc && rst.ro <= o && o <= rst.po);
+        /*@*/     assert((self.p_del() is Some || self.p_ins() is Some) ==> self.p_eq() is None && xs.last != 2 && rst.ro == xs.oc && rst.rn == xs.nc);
+        /*@*/     assert(rst.fin ==> self.idle());
+        /*@*/     assert(self.inner().relies() ==> self.inner().rely_st().ok && self.inner().rely_st().oc == xs.oc && self.inner().rely_st().nc == xs.nc);
+        /*@*/     assert(self.inner().relies() ==> self.inner().rely_st().oe >= r0.oe && self.inner().rely_st().ne >= r0.ne);
+        /*@*/     assert(self.inner().relies() ==> (!rst.fin ==> wf(self.inner().rely_st())));
+        /*@*/ }
         Ok(())
     }
 
@@ -78,6 +287,13 @@ impl<D: DiffHook> DiffHook for Replace<D> {
         new_index: usize,
     ) -> (res: Result<(), D::Error>)
     {
+        /*@*/ let ghost pre = *vstd::prelude::old(self);
+        /*@*/ let ghost e = Ev::Delete(old_index, old_len, new_index);
+        /*@*/ proof {
+        /*@*/     reveal(step_rel);
+        /*@*/     lemma_mono(pre.rr(), pre.rst0_(), pre.hist_());
+        /*@*/     lemma_xrun_mono(pre.rr(), pre.x0(), pre.em_());
+        /*@*/ }
         self.flush_eq()?;
         if let Some((del_old_index, del_old_len, del_new_index)) = self.del.take() {
             assert(old_index == del_old_index + del_old_len);
@@ -85,6 +301,11 @@ impl<D: DiffHook> DiffHook for Replace<D> {
         } else {
             self.del = Some((old_index, old_len, new_index));
         }
+        /*@*/ proof {
+        /*@*/     self.hist@ = self.hist@.push(e);
+        /*@*/     lemma_run_push(pre.rr(), pre.rst0_(), pre.hist_(), e);
+        /*@*/     assert(self.core());
+        /*@*/ }
         Ok(())
     }
 
@@ -95,6 +316,13 @@ impl<D: DiffHook> DiffHook for Replace<D> {
         new_len: usize,
     ) -> (res: Result<(), D::Error>)
     {
+        /*@*/ let ghost pre = *vstd::prelude::old(self);
+        /*@*/ let ghost e = Ev::Insert(old_index, new_index, new_len);
+        /*@*/ proof {
+        /*@*/     reveal(step_rel);
+        /*@*/     lemma_mono(pre.rr(), pre.rst0_(), pre.hist_());
+        /*@*/     lemma_xrun_mono(pre.rr(), pre.x0(), pre.em_());
+        /*@*/ }
         self.flush_eq()?;
         self.ins = if let Some((ins_old_index, ins_new_index, ins_new_len)) = self.ins.take() {
             assert(ins_new_index + ins_new_len == new_index);
@@ -103,6 +331,11 @@ impl<D: DiffHook> DiffHook for Replace<D> {
             Some((old_index, new_index, new_len))
         };
 
+        /*@*/ proof {
+        /*@*/     self.hist@ = self.hist@.push(e);
+        /*@*/     lemma_run_push(pre.rr(), pre.rst0_(), pre.hist_(), e);
+        /*@*/     assert(self.core());
+        /*@*/ }
         Ok(())
     }
 
@@ -120,8 +353,20 @@ impl<D: DiffHook> DiffHook for Replace<D> {
 
     fn finish(&mut self) -> (res: Result<(), D::Error>)
     {
+        /*@*/ let ghost pre = *vstd::prelude::old(self);
+        /*@*/ let ghost e = Ev::Finish;
+        /*@*/ proof {
+        /*@*/     reveal(step_rel);
+        /*@*/     lemma_mono(pre.rr(), pre.rst0_(), pre.hist_());
+        /*@*/     lemma_xrun_mono(pre.rr(), pre.x0(), pre.em_());
+        /*@*/ }
         self.flush_eq()?;
         self.flush_del_ins()?;
+        /*@*/ let ghost mid = *self;
+        /*@*/ proof {
+        /*@*/     self.hist@ = self.hist@.push(e);
+        /*@*/     lemma_run_push(pre.rr(), pre.rst0_(), pre.hist_(), e);
+        /*@*/ }
         self.d.finish()
     }
 }
